@@ -192,11 +192,11 @@ def shrink(line):
 def coq_case(line, impl_out):
     t = line.split()
     if t[0] != "ean":
-        return "([], None)"      # sweep lines are not sampled (trivially consistent entry)
+        return "([], noR)"      # sweep lines are not sampled (trivially consistent entry)
     bs = [] if t[1] == "-" else [str(int(t[1][i:i + 2], 16)) for i in range(0, len(t[1]), 2)]
     inp = "[%s]" % "; ".join(bs)
     if not impl_out.startswith("OK"):
-        return "(%s, None)" % inp
+        return "(%s, noR)" % inp
     f = impl_out.split()
     content = "[%s]" % "; ".join(str(int(f[4][i:i + 2], 16)) for i in range(0, len(f[4]), 2))
     bits = "[%s]" % "; ".join("true" if c == "1" else "false" for c in f[6])
@@ -204,6 +204,7 @@ def coq_case(line, impl_out):
 
 
 KERNEL_HEADER = """From Verif Require Import Prelude Barcode EanM EanSpec.
+Definition noR : option (bool * list Z * Z * list bool) := None.
 Definition zs_eqb (x y : list Z) : bool :=
   (length x =? length y)%nat && forallb (fun p => fst p =? snd p) (combine x y).
 Definition case_ok (c : list Z * option (bool * list Z * Z * list bool)) : bool :=
